@@ -22,5 +22,5 @@ def run(ctx, replay=None):
               dict(shape="chain", max_env=0, flags="m,c,o,e", extra="a", faults=True, random_walks=6000, walk_len=10),
               dict(shape="chain", max_env=2, flags="m,c", faults=True, env="SetIssuer,Edit,DeleteArt,StripKey"),
               dict(shape="two", max_env=0, flags="m,c,o,e", extra="a", faults=True, random_walks=3000, walk_len=10,
-                   env="Edit,Touch,DeleteArt,Truncate,StripKey,Replace,MakeCsr,EditProfile,Expire,SetIssuer,RemoveConfig,AddConfig")]
+                   env="Edit,Touch,DeleteArt,Truncate,StripKey,ResaveArt,Replace,MakeCsr,EditProfile,Expire,SetIssuer,RemoveConfig,AddConfig")]
     return repo.run_lifecycle(ctx, "C15", mc, ex, "fault_enumeration", ASSUME, replay)
